@@ -148,6 +148,10 @@ type Solver struct {
 	Stats           *SolverStats
 	TimeoutMS       int
 	LogFile         io.Writer
+	// IntLattice: lattice inputs are declared Int in every query (no real
+	// relaxation). Needed where the code under test distinguishes integers
+	// from nearby reals (the overlay's node set).
+	IntLattice bool
 }
 
 func NewSolver(stats *SolverStats) *Solver {
@@ -216,6 +220,9 @@ func parseStatus(out string) (Result, bool) {
 // result is Sat, the model of the script's variables is returned (nil if it
 // could not be parsed).
 func (s *Solver) Check(asserts []*Term, wantModel bool, intVars bool) (Result, Model) {
+	if s.IntLattice {
+		intVars = true
+	}
 	sc := BuildScript(asserts, intVars)
 	atomic.AddInt64(&s.Stats.Queries, 1)
 	r, m := s.checkScript(sc, wantModel, intVars)
